@@ -31,7 +31,7 @@ PROBES = ["game_completed", "second_game", "op_inside_hold", "add_inside_hold", 
           "extra_ball_played", "save_used", "bip_capped", "overdrain_clamped", "add_refused_after_ball1",
           "late_player_joined", "add_denied", "end_game_during_start", "slam_during_game", "tilt_during_ball",
           "four_players", "restart_after_end", "playfield_wait", "sync_handler_op", "multiball_drained",
-          "end_game_midgame", "natural_game_end_multi_player",
+          "end_game_midgame", "natural_game_end_multi_player", "hop_op",
           "hold_game_starting", "hold_player_adding", "hold_player_turn_starting", "hold_ball_starting",
           "hold_ball_ending", "hold_player_turn_ending", "hold_game_ending"]
 REAL = ["mpf.modes.game.code.game.Game (AsyncMode coroutine)", "mpf.modes.attract.code.attract.Attract",
@@ -133,7 +133,27 @@ def plan(ch, tier):
                 ops.append({"t": "anch", "ev": ev, "n": h["n"], "delay": delay, "do": _gen_action(ch, prof), "in_hold": True})
     for _ in range(ch.choice("nanch", 9)):
         ops.append({"t": "anch", "ev": ch.pick("anch_ev", ANCHOR_PICK), "n": ch.pick("anch_n", [0, 0, 1, 1, 2, 3, 4, 6]),
-                    "delay": ch.pick("anch_delay", [None, None, 0.0, 0.001, 0.1, 1.0]), "do": _gen_action(ch, prof)})
+                    "delay": ch.pick("anch_delay", [None, None, 0.0, 0.001, 0.1, 1.0, "h1", "h2", "h3", "h5"]), "do": _gen_action(ch, prof)})
+    # guided: join requests in the gap between two turns (rotation, round change) and right at a ball boundary
+    for _ in range(ch.pick("nguided", [0, 0, 1, 1, 2])):
+        evn = ch.pick("g_ev", ["player_turn_ended", "player_turn_will_start", "player_turn_starting", "player_turn_started",
+                               "player_turn_ending", "ball_ended"])
+        ops.append({"t": "anch", "ev": evn, "n": ch.pick("g_n", [0, 1, 1, 2, 2, 3, 4]),
+                    "delay": ch.pick("g_delay", [None, None, 0.0]), "do": {"a": ch.pick("g_how", ["add_ev", "btn"])}})
+    # guided: a new start request in the instants around game_ended (attract restarts, the game mode stops)
+    if ch.flag("g_restart", 0.3):
+        ops.append({"t": "anch", "ev": ch.pick("gr_ev", ["game_ended", "game_ended", "game_ending", "player_turn_ended"]),
+                    "n": ch.pick("gr_n", [0, 0, 1, 2]),
+                    "delay": ch.pick("gr_delay", [None, 0.0, "h1", "h2", "h3", "h4", "h6", 0.001, 0.3]),
+                    "do": {"a": ch.pick("gr_how", ["btn", "start_ev"])}})
+    # guided: a player whose add is held open while the game ends and the next one starts
+    if ch.flag("g_stale_add", 0.15):
+        k = ch.pick("gs_n", [1, 1, 2, 3])
+        ops.append({"t": "hold", "ev": "player_adding", "n": k, "dur": MAX_HOLD})
+        ops.append({"t": "anch", "ev": "player_adding", "n": k, "delay": ch.pick("gs_d1", [0.0, 0.2, 0.5]),
+                    "do": {"a": "end_game", "via": ch.pick("gs_via", ["ev", "call"])}, "in_hold": True})
+        ops.append({"t": "anch", "ev": "game_ended", "n": ch.pick("gs_g", [0, 0, 1]), "delay": ch.pick("gs_d2", [0.001, 0.1, 0.5]),
+                    "do": {"a": "btn"}})
     return {"knobs": knobs, "cfg": cfg, "ops": ops}
 
 
@@ -152,7 +172,7 @@ def shrink(plan):
             alts.append(dict(op, dt=1.0))
         if op["t"] == "hold" and op["dur"] not in ("sync", 1.0):
             alts.append(dict(op, dur=1.0))
-        if op["t"] == "anch" and op["delay"] is not None:
+        if op["t"] == "anch" and op["delay"] is not None and not isinstance(op["delay"], str):
             alts.append(dict(op, delay=None))
         if op.get("do", {}).get("a") == "drain" and op["do"].get("k") != 1:
             alts.append(dict(op, do=dict(op["do"], k=1)))
@@ -207,6 +227,7 @@ class Oracle:
         self.trace = []
         self.add_req_taps = 0
         self.add_req_taps0 = 0
+        self.t_last_added = -1.0
         self.add_must = self.add_must_not = False
         self._reset_game()
 
@@ -262,6 +283,7 @@ class Oracle:
             self._player_will_add(kw)
         elif name == "player_added":
             self.added.add(kw.get("num"))
+            self.t_last_added = t
             if self.roster_hi == 4:
                 self.ctx.probe("four_players")
         elif name == "tilt_clear":
@@ -316,6 +338,7 @@ class Oracle:
         # R-add-in-flight: while another player's add is still in progress the request may be refused or served.
         self.add_must = (self.active and self.round == 1 and not self.end_game_req and not self.slam_req
                          and self.roster_hi < self.maxp and self.roster_hi == len(self.added) and self.pending_adds == 0
+                         and self.sim.now > self.t_last_added
                          and self.phase in ("player_turn_started", "ball_will_start", "ball_starting", "ball_started",
                                             "ball_will_end", "ball_ending", "ball_ended"))
         self.add_must_not = self.active and self.round >= 2 and self.phase in (
@@ -787,6 +810,13 @@ def execute(ctx, plan):
             holds[(op["ev"], op["n"])] = op["dur"]
     seen = {}
 
+    def hop(k, do):
+        if k <= 0:
+            ctx.probe("hop_op")
+            do_action(do, "hop")
+        else:
+            loop.call_soon(hop, k - 1, do)
+
     def make_anchor_handler(name):
         is_queue = name in QUEUE_EVENTS
 
@@ -796,6 +826,8 @@ def execute(ctx, plan):
             for op in (anchors.get((name, n), ()) if not world["settling"] else ()):
                 if op["delay"] is None:
                     do_action(op["do"], "sync")
+                elif isinstance(op["delay"], str):
+                    hop(int(op["delay"][1:]), op["do"])      # "h3": three loop iterations later, same instant
                 else:
                     sim.after(op["delay"], do_action, op["do"], "anch")
             if is_queue and queue is not None and not world["settling"]:
